@@ -525,13 +525,29 @@ func HashIsEmpty(hash *SexpHash) bool {
 }
 
 func SetHashKeyOrder(hash *SexpHash, keyOrd Sexp) error {
-	// truncate down to zero, then build back up correctly.
-	hash.KeyOrder = hash.KeyOrder[:0]
-
 	keys, isArr := keyOrd.(*SexpArray)
 	if !isArr {
 		return fmt.Errorf("must have SexpArray for keyOrd, but instead we have: %T with value='%#v'", keyOrd, keyOrd)
 	}
+	// the order given must be an order of the keys the hash has:
+	// taken as it comes, it could list names that are no members.
+	if len(keys.Val) != len(hash.KeyOrder) {
+		return fmt.Errorf("key order lists %d keys, the hash has %d", len(keys.Val), len(hash.KeyOrder))
+	}
+	have := make(map[string]int)
+	for _, key := range hash.KeyOrder {
+		have[key.SexpString(nil)]++
+	}
+	for _, key := range keys.Val {
+		name := key.SexpString(nil)
+		if have[name] == 0 {
+			return fmt.Errorf("key order lists '%s', which is not a key of the hash", name)
+		}
+		have[name]--
+	}
+
+	// truncate down to zero, then build back up correctly.
+	hash.KeyOrder = hash.KeyOrder[:0]
 	for _, key := range keys.Val {
 		hash.KeyOrder = append(hash.KeyOrder, key)
 	}
@@ -867,11 +883,13 @@ func fillHashHelper(r interface{}, depth int, env *Zlisp, preferSym bool) (Sexp,
 			}
 		}
 		hash, err := MakeHash(pairs, typeName, env)
+		// (first: setting the key order below used to overwrite
+		// this error, e.g. a member refused by the declared type)
+		panicOn(err)
 		if foundzKeyOrder {
 			err = SetHashKeyOrder(hash, keyOrd)
 			panicOn(err)
 		}
-		panicOn(err)
 		return hash, nil
 
 	case []byte:
